@@ -3251,7 +3251,7 @@ impl EncCase {
         }
         let kv = Kv::new(toks);
         let (Some(res), Some(late)) = (kv.int("res"), kv.nat("late")) else { return bad() };
-        if res <= -2147483648 || res >= 2147483648 || late > 1 || (late == 1 && (op == "close" || op == "dropfd")) {
+        if res <= -2147483648 || res >= 2147483648 || late > 2 || (late >= 1 && (op == "close" || op == "dropfd")) {
             return bad();
         }
         if res < 0 && !matches!(op, "close" | "dropfd") && (res == -4 || res == -125) {
@@ -3423,6 +3423,13 @@ impl EncCase {
         }
         let posts = if op == "close" { Vec::new() } else { self.complete(op, &kv, &s, &mem, &ctx, res) };
         self.rpoll(posts);
+        if late == 2 {
+            // the completion has been processed (the operation is `Done`), the future has not been
+            // polled yet: a builder method called now must not reach the result either (for the
+            // descriptor-creating operations: the kind the kernel's answer is wrapped as)
+            self.feats.push("late-builder-after-completion".into());
+            b.obj.late();
+        }
         if special {
             simk::sync_script(Some(self.sync_script_for(op, &kv, sys)));
         }
@@ -3699,7 +3706,7 @@ impl EncCase {
             "getsockopt" | "setsockopt" => rng.chance(1, 2),
             _ => false,
         };
-        let late = if !matches!(op, "close" | "dropfd") && rng.chance(1, 5) { 1 } else { 0 };
+        let late = if !matches!(op, "close" | "dropfd") && rng.chance(1, 5) { 1 + rng.below(2) } else { 0 };
         let pick_err = |rng: &mut Rng, op: &str| -> i64 {
             loop {
                 let e = *rng.pick(&ERRS);
@@ -4041,7 +4048,7 @@ impl Comp for EncodeComp {
         "encode"
     }
     fn rule(&self) -> String {
-        "each case = a ring with a regular descriptor (number 600..999), a direct descriptor (index 0..2^31-2, obtained through to_direct_descriptor) and a splice target, then 8 op lines drawn uniformly from 44 operations (read/readp/mread/readv/write/writev/splice/close/dropfd/open/mkdir/rename/unlink/fsync/statx/fadvise/fallocate/ftruncate/socket/bind/listen/connect/sockname/recv/recvp/mrecv/recvv/recvfrom/recvfromv/send/sendto/sendmsg/accept/maccept/getsockopt/setsockopt/shutdown/waitid/sigrecv/todirect/tofd/pipe/madvise/pollable): regular x direct descriptor, offsets none/0/small/>2^32/2^64-2/2^64-1/random, lengths 0/1/64/random, every non-empty subset of each BitOr flag type, every public constant of the single-valued flag types, 1..8 vectored buffers with random capacity/initial length, all five address types (IPv4, IPv6, either-family, Unix path/abstract/unnamed, none), 19 socket options, results = success with data or an errno (1 in 7) or a value the call never returns (1 in 40); for the four operations with a synchronous fallback (sockname, pipe: 1 line in 3; getsockopt, setsockopt: 1 in 2) the line completes with the error that triggers it (EOPNOTSUPP / ENOSYS|EOPNOTSUPP / EINVAL), on regular and direct descriptors alike, and scripts the trapped system call (success with the same out-parameters as a completion, 1 in 4 an errno of its own); late=1 (1 in 5) calls every builder method again after the first poll and forces a re-issue with EINTR; plus a malformed stream (1 in 30) and real-kernel differential lines (1 in 250: the same seeded fixture through a10 on a real ring and through libc); every well-formed case is non-trivial; distinct = distinct op scripts".into()
+        "each case = a ring with a regular descriptor (number 600..999), a direct descriptor (index 0..2^31-2, obtained through to_direct_descriptor) and a splice target, then 8 op lines drawn uniformly from 44 operations (read/readp/mread/readv/write/writev/splice/close/dropfd/open/mkdir/rename/unlink/fsync/statx/fadvise/fallocate/ftruncate/socket/bind/listen/connect/sockname/recv/recvp/mrecv/recvv/recvfrom/recvfromv/send/sendto/sendmsg/accept/maccept/getsockopt/setsockopt/shutdown/waitid/sigrecv/todirect/tofd/pipe/madvise/pollable): regular x direct descriptor, offsets none/0/small/>2^32/2^64-2/2^64-1/random, lengths 0/1/64/random, every non-empty subset of each BitOr flag type, every public constant of the single-valued flag types, 1..8 vectored buffers with random capacity/initial length, all five address types (IPv4, IPv6, either-family, Unix path/abstract/unnamed, none), 19 socket options, results = success with data or an errno (1 in 7) or a value the call never returns (1 in 40); for the four operations with a synchronous fallback (sockname, pipe: 1 line in 3; getsockopt, setsockopt: 1 in 2) the line completes with the error that triggers it (EOPNOTSUPP / ENOSYS|EOPNOTSUPP / EINVAL), on regular and direct descriptors alike, and scripts the trapped system call (success with the same out-parameters as a completion, 1 in 4 an errno of its own); late=1 (1 in 10) calls every builder method again after the first poll and forces a re-issue with EINTR, late=2 (1 in 10) calls them between the processing of the completion and the poll that reads it; plus a malformed stream (1 in 30) and real-kernel differential lines (1 in 250: the same seeded fixture through a10 on a real ring and through libc); every well-formed case is non-trivial; distinct = distinct op scripts".into()
     }
     fn gen_header(&mut self, rng: &mut Rng, id: u64, _tier: &str) -> String {
         let rfd = rng.range(600, 999);
